@@ -863,6 +863,16 @@ pub fn expand_env(sh: &Shell, tokens: &mut types::Tokens) {
         while has_env_ref(&rest) {
             match expand_one_env(sh, &rest) {
                 Some((head, val, tail)) => {
+                    // a command substitution inside the word keeps its
+                    // text: its references are expanded when its own
+                    // command line is run, where their values are data
+                    if let Some((a, b)) = first_cmd_substitution(&rest) {
+                        if head.len() >= a {
+                            _token.push_str(&rest[..b]);
+                            rest = rest[b..].to_string();
+                            continue;
+                        }
+                    }
                     if val.contains('>') {
                         produced_gt = true;
                     }
@@ -919,6 +929,21 @@ fn find_dollar_cmd(line: &str) -> Option<(usize, usize)> {
         i += 1;
     }
     None
+}
+
+/// The first command substitution of `text`: `$(...)` (balanced) or a pair
+/// of backquotes, whichever starts first; byte offsets of its start and end.
+fn first_cmd_substitution(text: &str) -> Option<(usize, usize)> {
+    let dollar = find_dollar_cmd(text);
+    let back = match text.find('`') {
+        Some(a) => text[a + 1..].find('`').map(|n| (a, a + 1 + n + 1)),
+        None => None,
+    };
+    match (dollar, back) {
+        (Some(d), Some(b)) => Some(if d.0 < b.0 { d } else { b }),
+        (Some(d), None) => Some(d),
+        (None, b) => b,
+    }
 }
 
 /// Run `cmd` and return what it wrote to stdout, without the trailing
